@@ -1,9 +1,11 @@
 #!/usr/bin/env python3
-"""Print the markdown tables of DESIGN.md section 8 from seeded/*/meta.json and known_findings.json."""
-import json, glob, os
+"""Print the markdown tables of DESIGN.md section 8 from seeded/*/meta.json and known_findings.json.
+With --section8: print the whole section (prose parts from tools/design/sec8_*.md + the generated tables);
+with --write: replace section 8 of DESIGN.md by it."""
+import json, glob, os, sys
 ROOT = os.path.dirname(os.path.dirname(os.path.abspath(__file__)))
-print('| property | seeded change (by an independent sub-agent that saw only the property text) | needs to manifest | result of our check(s) |')
-print('|---|---|---|---|')
+def part(n): return open(os.path.join(ROOT, 'tools', 'design', n)).read()
+seeds = ['| tag | seeded change (by an independent sub-agent that saw only the property text) | needs to manifest | result of our check(s) |', '|---|---|---|---|']
 for d in sorted(glob.glob(os.path.join(ROOT, 'seeded', 'C*'))):
     try: m = json.load(open(os.path.join(d, 'meta.json')))
     except Exception: continue
@@ -18,10 +20,18 @@ for d in sorted(glob.glob(os.path.join(ROOT, 'seeded', 'C*'))):
         else: res.append('%s: not caught' % c)
     note = m.get('lead_note', '')
     if note: note = '— ' + note[:420]
-    print('| %s | %s | %s | %s %s |' % (os.path.basename(d), (m.get('what_changed') or '')[:200].replace('|', '/').replace('\n', ' '),
-          (m.get('needs_to_manifest') or '')[:140].replace('|', '/').replace('\n', ' '), '; '.join(res), note))
-print()
-print('| property | status | finding |')
-print('|---|---|---|')
+    seeds.append('| %s | %s | %s | %s %s |' % (os.path.basename(d), (m.get('what_changed') or '')[:200].replace('|', '/').replace('\n', ' '),
+                 (m.get('needs_to_manifest') or '')[:140].replace('|', '/').replace('\n', ' '), '; '.join(res), note.replace('|', '/')))
+finds = ['| property | status | finding |', '|---|---|---|']
 for k in json.load(open(os.path.join(ROOT, 'known_findings.json'))):
-    print('| %s | %s%s | %s |' % (k['property'], k['status'], (' ' + k.get('commit', '')) if k.get('commit') else '', k['what'][:300].replace('|', '/')))
+    finds.append('| %s | %s%s | %s |' % (k['property'], k['status'], (' ' + k.get('commit', '')[:7]) if k.get('commit') else '', k['what'][:300].replace('|', '/').replace('\n', ' ')))
+if '--section8' in sys.argv or '--write' in sys.argv:
+    out = '\n'.join([part('sec8_head.md'), part('sec8_findings.md'), '\n'.join(finds), part('sec8_why.md'), part('sec8_seeds.md'), '\n'.join(seeds), part('sec8_tail.md')])
+    if '--write' in sys.argv:
+        p = os.path.join(ROOT, 'DESIGN.md'); s = open(p).read()
+        i = s.index('## 8. Status as built')
+        open(p, 'w').write(s[:i] + out)
+        print('DESIGN.md section 8 rewritten (%d chars)' % len(out))
+    else: print(out)
+else:
+    print('\n'.join(seeds)); print(); print('\n'.join(finds))
